@@ -1,33 +1,7 @@
-import PGV.Model.Expected
+import PGV.Props.Facts.Patterns
+import PGV.Props.Facts.RuleTable
+import PGV.Props.Facts.Lock
+import PGV.Props.Facts.Globals
+import PGV.Props.Facts.Alias
 
-/-!
-# T2 obligations: re-decided on every run against the facts extracted from /repo's current source
--/
-
-namespace PGV.Props.Facts
-open PGV
-
-set_option maxRecDepth 100000 in
-/-- the regular expressions of `valid/init.go` and `file/parse.go` are (up to `regexp/syntax`
-normalisation) the ones the recognisers and scanners of the model transcribe -/
-theorem T2_patterns : Expected.patternsOK Generated.patterns = true := by decide
-
-/-- `validName2FnMap` binds every rule name to the function the model's table binds it to -/
-theorem T2_rule_table : Expected.ruleTableOK Generated.ruleTable = true := by decide
-
-/-- the model's rule table has exactly the rule names of the code's table -/
-theorem T2_model_keys : Expected.modelKeysOK Generated.ruleKeys = true := by decide
-
-/-- every method of `LRUCache` that writes shared state holds the exclusive lock for its whole body,
-every reader at least the shared lock; lock-free helpers are only called under the exclusive lock -/
-theorem T2_lock_discipline : Expected.lockOK Generated.lockFacts = true := by decide
-
-/-- no function of package `valid` assigns package-level state except the two registration functions -/
-theorem T2_globals : Expected.globalsOK Generated.globalWriters = true := by decide
-
-/-- every zero-copy `[]byte → string` conversion of package `valid` is applied to a buffer made in the
-same function, after the last write to it and outside loops (C12: "the error text and parsed rule
-tokens it handed out never change when later calls reuse internal buffers") -/
-theorem T2_alias : Expected.aliasOK Generated.aliasFacts = true := by decide
-
-end PGV.Props.Facts
+/-! All T2 obligations (each lives in its own module under `PGV/Props/Facts/`). -/
